@@ -998,7 +998,16 @@ fn orchestrate(check: &dyn Check, tier: Tier) -> i32 {
     let mut inconclusive: Vec<String> = Vec::new();
     let parallel = plan.parallel.max(1);
 
+    let mut shards_not_started = 0u64;
     loop {
+        // once two distinct violations are on record further shards add nothing to the verdict
+        // (each would stop at its first failure and shrink it again): the rest of the queue is
+        // dropped and counted; shards already running finish
+        let distinct_violations: BTreeSet<&str> = merged.violations.iter().map(|v| v.signature.as_str()).collect();
+        if distinct_violations.len() >= 2 || (merged.violations.len() >= 6) {
+            shards_not_started += queue.len() as u64;
+            queue.clear();
+        }
         while running.len() < parallel {
             let Some(k) = queue.pop() else { break };
             match spawn_worker(id, tier, seed, &k) {
@@ -1117,9 +1126,10 @@ fn orchestrate(check: &dyn Check, tier: Tier) -> i32 {
             "counters": merged.counters,
             "known_findings_observed": known_obs,
             "foreign_property_failures_seen": merged.foreign,
-            "exhaustive": check.exhaustive_claim(tier),
+            "exhaustive": check.exhaustive_claim(tier) && shards_not_started == 0,
             "plan": {"cases": plan.cases, "max_tape_per_slot": plan.max_tape, "max_slots": plan.max_slots, "shard_cases": plan.shard_cases, "exhaustive_shards": plan.exhaustive_shards},
             "inconclusive": inconclusive,
+            "shards_not_started_after_violations": shards_not_started,
         },
         "assumptions": check.assumptions(),
         "wall_s": t0.elapsed().as_secs_f64(),
